@@ -205,6 +205,47 @@ func directC18(g *G, rep *Report) {
 			}
 		})
 	}
+	// a parse that gives up early while the scanner is in the middle of a state function that has sent an item and
+	// then reports a LEXICAL error in the same call (unterminated literal / comment / soydoc, malformed header
+	// param, a double-brace tag closed once): whether the scanner is already blocked in a send when the parser
+	// stops is a matter of scheduling, so each input is parsed many times, and once with megabytes of valid text
+	// in front of the error (the parser is then far behind the scanner).
+	{
+		pres := []string{"{namespace a}\n{template .t}\n{switch $x}", "{namespace a}\n{template .t}\n{let $y: 1} text {if}", "{namespace a}\n{template .t}\n{if}", "{namespace a}\n{template .t}\n{call}"}
+		lexTails := []string{"{literal}oops", " text /* never closed", " text\n/** @param x ", " {@param x: ", " {{css a}", " {{$x}\n", "{literal}a{/literal}{literal}", " 'abc", " {'abc"}
+		reps := g.N(150, 1500)
+		stress := 0
+		for _, pre := range pres {
+			for _, tl := range lexTails {
+				src := pre + tl
+				for k := 0; k < reps; k++ {
+					guarded(5*time.Second, func() { parse.SoyFile("f.soy", src) })
+					stress++
+				}
+			}
+		}
+		pad := strings.Repeat("line of valid text {$x} and more\n", g.N(40000, 250000))
+		for _, tl := range lexTails {
+			src := "{namespace a}\n{template .t}\n" + pad + "{if}" + tl
+			for k := 0; k < 3; k++ {
+				guarded(60*time.Second, func() { parse.SoyFile("big.soy", src) })
+				stress++
+			}
+		}
+		deadline := time.Now().Add(2 * time.Second)
+		left := lexerGoroutines()
+		for left > 0 && time.Now().Before(deadline) {
+			time.Sleep(5 * time.Millisecond)
+			left = lexerGoroutines()
+		}
+		rep.Evaluations += stress
+		rep.Extra["stress_parses"] = stress
+		rep.Extra["stress_scanner_goroutines_left"] = left
+		if left > 0 {
+			rep.Violations = append(rep.Violations, Viol{Key: "leak-under-repetition", What: strconv.Itoa(left) + " scanner goroutines are still alive after " + strconv.Itoa(stress) + " parses that stop early while the scanner runs into a lexical error (each input parsed repeatedly; also behind megabytes of valid text)",
+				Req: "(direct sweep)", Impl: strconv.Itoa(left) + " goroutines in parse.(*lexer).run", Want: "0"})
+		}
+	}
 	time.Sleep(100 * time.Millisecond)
 	grown := runtime.NumGoroutine() - base
 	rep.Evaluations += n
